@@ -116,6 +116,22 @@ class IASolverBaseClass:  # pylint: disable=R0902
         """
         self._F = None
         self._full_F = None
+        # The post-processing filters compensate the direct channel as seen
+        # through `full_F`, thus they depend on the precoder as well.
+        self._full_W_H = None
+        self._full_W = None
+
+    def _clear_power_dependent(self) -> None:
+        """
+        Clear everything that was derived from the transmit power.
+
+        This is called whenever the transmit power is changed, so that
+        `full_F`, `full_W_H` and `full_W` are recomputed with the new power
+        the next time they are required.
+        """
+        self._full_F = None
+        self._full_W_H = None
+        self._full_W = None
 
     def clear(self) -> None:
         """
@@ -455,6 +471,10 @@ class IASolverBaseClass:  # pylint: disable=R0902
                 self._P = np.array(value)
             else:
                 raise ValueError("P cannot be negative or equal to zero.")
+
+        # The scaled precoders and the filters that compensate them were
+        # computed for the previous power
+        self._clear_power_dependent()
 
     @property
     def Ns(self) -> np.ndarray:
